@@ -124,6 +124,20 @@ pub fn make_case(prop: &str, seed: u64) -> Case {
             perturb(&mut rng, &mut mix);
             mix.send = mix.send.max(10);
             case.gen.mix = mix;
+            // rare arm "big batch": one stored batch larger than the 2 MiB a single `tokio::fs::File::write`
+            // call accepts (the shim keeps that limit) - the writers have to write the rest too
+            if matches!(prop, "C01" | "C02" | "C03") && rng.chance(0.04) {
+                case.gen.payload_lens = vec![300_000, 400_000, 1_000];
+                case.gen.batch_sizes = vec![3, 5, 8];
+                case.gen.ops = 8 + rng.below(12) as u32;
+                case.gen.topics = 1;
+                case.gen.partitions = 1;
+                case.knobs.messages_required_to_save = *rng.pick(&[10, 50, 1000]);
+                case.knobs.segment_size = *rng.pick(&[8 * 1024 * 1024, 1_000_000_000]);
+                case.knobs.cache_size = 64 * 1024 * 1024;
+                case.pipe_capacity = 65536;
+                case.yield_prob = case.yield_prob.min(0.05);
+            }
             log_setup(&mut case, &mut rng);
         }
         "C14" => {
